@@ -22,8 +22,17 @@ pub fn exec<T: FnOnce(Variable, Variable) -> Variable>(
     function: T,
 ) -> Variable {
     let lhs = lhs.into_mut().unwrap();
+    #[cfg(simplesl_verif)]
+    let verif_cell = {
+        crate::verif::perturb("before-write-lock");
+        lhs.clone()
+    };
     let mut lhs = lhs.variable.write().unwrap();
+    #[cfg(simplesl_verif)]
+    let mut verif_write = crate::verif::pre_write(&verif_cell, &lhs, &rhs);
     *lhs = function(lhs.clone(), rhs);
+    #[cfg(simplesl_verif)]
+    verif_write.stored(&lhs);
     lhs.clone()
 }
 
@@ -33,7 +42,16 @@ pub fn try_exec<T: FnOnce(Variable, Variable) -> Result<Variable, ExecError>>(
     function: T,
 ) -> Result<Variable, ExecError> {
     let lhs = lhs.into_mut().unwrap();
+    #[cfg(simplesl_verif)]
+    let verif_cell = {
+        crate::verif::perturb("before-write-lock");
+        lhs.clone()
+    };
     let mut lhs = lhs.variable.write().unwrap();
+    #[cfg(simplesl_verif)]
+    let mut verif_write = crate::verif::pre_write(&verif_cell, &lhs, &rhs);
     *lhs = function(lhs.clone(), rhs)?;
+    #[cfg(simplesl_verif)]
+    verif_write.stored(&lhs);
     Ok(lhs.clone())
 }
